@@ -23,7 +23,6 @@ UNITS = ["beat", "quarter", "div", "sec", "tick"]
 UCOQ = {"beat": "UBeat", "quarter": "UQuarter", "div": "UDiv", "sec": "USec", "tick": "UTick"}
 INT_UNITS = ("div", "tick")
 BOOL_OPTS = ["onset_only", "note_separation", "piano_range", "remove_silence", "binary", "return_idxs", "remove_drums"]
-K1 = "C13-K1"
 
 
 # ----------------------------------------------------------------------------
@@ -131,21 +130,29 @@ def run_impl_roll(case):
         with warnings.catch_warnings():
             warnings.simplefilter("ignore")
             res = M.compute_pianoroll(na, **roll_kwargs(case))
-    except ValueError as e:
-        return {"status": "err", "msg": str(e)[:200]}
-    except Exception as e:  # anything else is a crash, never an accepted rejection
-        return {"status": "crash", "msg": "%s: %s" % (type(e).__name__, str(e)[:200])}
+    except Exception as e:
+        # a refusal; whether refusing is acceptable is the judge's business (the statement speaks of
+        # no exception class, so the class is recorded but not demanded)
+        return {"status": "err", "exc": type(e).__name__, "msg": str(e)[:200]}
     idx = None
     if case["opts"]["return_idxs"]:
-        if not (isinstance(res, tuple) and len(res) == 2):
+        if not (isinstance(res, (tuple, list)) and len(res) == 2):
             return {"status": "crash", "msg": "return_idxs=True did not return (roll, idx)"}
         res, idx = res
-        idx = [[int(x) for x in row] for row in np.asarray(idx)]
-    elif isinstance(res, tuple):
+        idx = np.asarray(idx)
+        if idx.ndim != 2 or idx.shape[1] < 3 or not np.all(idx == np.round(idx)):
+            return {"status": "crash", "msg": "index rows are not whole-number rows (row, onset, offset[, pitch]): shape %s" % (idx.shape,)}
+        idx = [[int(x) for x in row] for row in idx]
+    elif isinstance(res, (tuple, list)):
         return {"status": "crash", "msg": "return_idxs=False returned a tuple"}
-    d = res.toarray()
-    if d.dtype.kind not in "iu":
-        return {"status": "crash", "msg": "roll dtype %s is not integer" % d.dtype}
+    # sparse (any format) or dense, any numeric dtype: only the VALUES are the statement's business
+    d = np.asarray(res.toarray() if hasattr(res, "toarray") else res)
+    if d.ndim != 2:
+        return {"status": "crash", "msg": "roll is not 2-dimensional: shape %s" % (d.shape,)}
+    if d.dtype.kind not in "iub":
+        if d.dtype.kind != "f" or not np.all(d == np.round(d)):
+            return {"status": "crash", "msg": "roll holds values that are not whole numbers (dtype %s)" % d.dtype}
+    d = d.astype(np.int64)
     return {"status": "ok", "shape": [int(d.shape[0]), int(d.shape[1])], "runs": [list(r) for r in runs_of_dense(d)], "idx": idx}
 
 
@@ -177,13 +184,21 @@ def selected(case):
     return u, int(td), notes
 
 
-def spec_roll(case, strict_idx=True):
-    """Expected result by the property text.  {"status":"err"} or
-    {"status":"ok","shape":[M,N],"cells":{(r,c):v},"idx":[...]}"""
+def spec_roll(case, lenient=False):
+    """Expected result by the property text.
+    {"status":"ok","shape":[M,N],"cells":{(r,c):v},"idx":[...]} or {"status":"err","why":w} with w =
+      "end_time"  end_time lies before the last note offset: the documented refusal;
+      "empty" / "negdur" / "pitch"  no note left after drum filtering, a negative duration, a pitch
+          outside the rows of the roll: the statement fixes no behaviour for such arrays.  A refusal is
+          accepted; so is (lenient=True) the roll obtained by reading the clauses literally: a negative
+          duration is 'never less than one frame', a note outside the rows cannot be shown, no note
+          gives no non-zero cell (shape None = not judged)."""
     o = case["opts"]
     u, td, notes = selected(case)
-    if not notes or any(d < 0 for _, _, d, _ in notes):
-        return {"status": "err"}
+    if not notes:
+        return {"status": "ok", "shape": None, "cells": {}, "idx": None} if lenient else {"status": "err", "why": "empty"}
+    if any(d < 0 for _, _, d, _ in notes) and not lenient:
+        return {"status": "err", "why": "negdur"}
     tm, pm = o["time_margin"], o["pitch_margin"]
     mn = min(n[1] for n in notes)
     mt = mn if o["remove_silence"] else min(F(0), mn)
@@ -204,7 +219,7 @@ def spec_roll(case, strict_idx=True):
     else:
         e = td * (fr(o["end_time"]) - mt)
         if e + tm * td < last:
-            return {"status": "err"}
+            return {"status": "err", "why": "end_time"}
         N = math.ceil(e + 2 * tm * td)
     start = 21 if o["piano_range"] else 0
     Mout = max(0, min(M, 109) - 21) if o["piano_range"] else M
@@ -213,7 +228,10 @@ def spec_roll(case, strict_idx=True):
     for (p, on, du, v), (a, b) in zip(notes, fr_):
         row = p - lo + pm if pm > -1 else p
         if not (0 <= row < M):
-            return {"status": "err"}  # a note outside the pitch range of the roll cannot be shown
+            if lenient:
+                idx = None
+                continue
+            return {"status": "err", "why": "pitch"}
         if o["onset_only"]:
             end = a + 1
         else:
@@ -222,9 +240,12 @@ def spec_roll(case, strict_idx=True):
             if start <= row < start + Mout:
                 key = (row - start, c)
                 cells[key] = max(cells.get(key, v), v)
-        idx.append([row - start, a, end if strict_idx else (b if o["onset_only"] else end), p])
+        if idx is not None:
+            idx.append([row - start, a, end, p])
     if o["binary"]:
         cells = {k: (1 if v != 0 else 0) for k, v in cells.items()}
+    if lenient:
+        idx = None
     return {"status": "ok", "shape": [Mout, N], "cells": cells, "idx": idx}
 
 
@@ -236,30 +257,42 @@ def cells_of_runs(runs):
     return d
 
 
+def domain_edge(case):
+    """why-code when the array lies outside what the statement fixes (see spec_roll), else None."""
+    exp = spec_roll(case)
+    return exp["why"] if exp["status"] == "err" and exp["why"] != "end_time" else None
+
+
 def judge_roll(case, got=None):
-    """None if the implementation's result is what the statement requires, else a description.
-    A leading 'K1:' marks the known finding (onset-only index rows keep the nominal offset)."""
+    """None if the implementation's result is what the statement requires, else a description."""
     got = got or run_impl_roll(case)
     exp = spec_roll(case)
     if got["status"] == "crash":
-        return "compute_pianoroll crashed: " + got["msg"]
+        return "compute_pianoroll: " + got["msg"]
     if exp["status"] == "err":
-        return None if got["status"] == "err" else "expected a rejection (empty / negative duration / end_time before last offset / pitch outside the roll), got a roll of shape %s" % got["shape"]
-    if got["status"] == "err":
-        return "valid input rejected: " + got["msg"]
-    if got["shape"] != exp["shape"]:
+        if got["status"] == "err":
+            return None
+        if exp["why"] == "end_time":
+            return "end_time lies before the last note offset, yet a roll of shape %s came back" % got["shape"]
+        exp = spec_roll(case, lenient=True)   # not refused: then the clauses, read literally, must hold
+        if exp["status"] == "err":
+            return "end_time lies before the last note offset, yet a roll of shape %s came back" % got["shape"]
+    elif got["status"] == "err":
+        return "valid input rejected: %s: %s" % (got.get("exc"), got["msg"])
+    if exp["shape"] is not None and got["shape"] != exp["shape"]:
         return "shape %s, expected %s" % (got["shape"], exp["shape"])
     gc = cells_of_runs(got["runs"])
     ec = {k: v for k, v in exp["cells"].items() if v != 0}
     if gc != ec:
         diff = sorted(set(gc.items()) ^ set(ec.items()))[:6]
         return "cells differ (row, col) -> value: got/expected symmetric difference starts %s" % (diff,)
-    if case["opts"]["return_idxs"]:
-        if got["idx"] != exp["idx"]:
-            loose = spec_roll(case, strict_idx=False)["idx"]
-            if got["idx"] == loose:
-                return "K1: onset_only index rows carry the nominal offset column instead of onset+1: got %s expected %s" % (got["idx"][:4], exp["idx"][:4])
-            return "index rows %s, expected %s" % (got["idx"][:6], exp["idx"][:6])
+    if case["opts"]["return_idxs"] and exp["idx"] is not None:
+        # (row, onset column, offset column) designate the cells; the fourth column (the MIDI pitch, as
+        # documented) is compared when the implementation supplies it
+        gi = got["idx"]
+        ei = exp["idx"]
+        if len(gi) != len(ei) or any(g[:3] != e[:3] or (len(g) > 3 and g[3] != e[3]) for g, e in zip(gi, ei)):
+            return "index rows %s, expected %s" % (gi[:6], ei[:6])
     return None
 
 
@@ -323,7 +356,9 @@ def c_copts(case):
 
 
 def c_idx(idx):
-    return "None" if idx is None else "(Some %s)" % clist([ctuple([cz(x) for x in row]) for row in idx])
+    if idx is None or any(len(row) < 4 for row in idx):   # no pitch column supplied: judged by the oracle only
+        return "None"
+    return "(Some %s)" % clist([ctuple([cz(x) for x in row[:4]]) for row in idx])
 
 
 def c_obs_roll(got):
@@ -533,17 +568,19 @@ def shrink_roll(case, pred):
 
 
 
+WITH_COQ = True   # False when Props/C13.v did not build: the direct oracles still run
+
+
 def coq_failing_or_empty(ctx, name, terms, checker, shard):
     """ctx.coq_failing, except that an empty case list (every case already failed the direct oracle)
     is not handed to Coq (an untyped empty list literal does not elaborate)."""
-    if not terms:
+    if not terms or not WITH_COQ:
         return None
     return ctx.coq_failing(name, "From PV Require Import Model.C13.", "", terms, checker, shard=shard)
 
 
 def run_roll_stream(ctx, cases, name, with_coq=True):
     terms, kept = [], []
-    k1_reported = False
     nviol = 0
     for case in cases:
         if not float_safe(case):
@@ -553,21 +590,19 @@ def run_roll_stream(ctx, cases, name, with_coq=True):
         ctx.evaluations += 1
         classify_roll(ctx, case, got)
         why = judge_roll(case, got)
-        if why and why.startswith("K1:"):
-            ctx.count("roll:K1_onset_only_idx_offset")
-            if not k1_reported:
-                k1_reported = True
-                small = shrink_roll(case, lambda c: (judge_roll(c) or "").startswith("K1:"))
-                ctx.violation(why, {"case": small, "got": run_impl_roll(small), "finding": "onset_only_idx_offset"})
-            why = None
         if why:
             nviol += 1
             if nviol <= 5:
-                small = shrink_roll(case, lambda c: (lambda w: w and not w.startswith("K1:"))(judge_roll(c)))
+                small = shrink_roll(case, judge_roll)
                 ctx.violation("compute_pianoroll: " + (judge_roll(small) or why), {"case": small, "got": run_impl_roll(small)})
             continue
         if got["status"] == "crash":
             continue
+        edge = domain_edge(case)
+        if edge:
+            ctx.count("roll:outside_statement_%s_%s" % (edge, "refused" if got["status"] == "err" else "shown"))
+            if got["status"] == "ok":
+                continue     # the model refuses such arrays; nothing the statement fixes is compared
         ctx.sample({"case": case, "implementation": got}, limit=3)
         terms.append(c_roll_case(case, got))
         kept.append((case, got))
@@ -614,15 +649,13 @@ def run_impl_pc(case):
         with warnings.catch_warnings():
             warnings.simplefilter("ignore")
             res = M.compute_pitch_class_pianoroll(na, **pc_kwargs(case))
-    except ValueError as e:
-        return {"status": "err", "msg": str(e)[:200]}
     except Exception as e:
-        return {"status": "crash", "msg": "%s: %s" % (type(e).__name__, str(e)[:200])}
+        return {"status": "err", "exc": type(e).__name__, "msg": str(e)[:200]}
     idx = None
     if case["opts"]["return_idxs"]:
         res, idx = res
         idx = [[int(x) for x in row] for row in np.asarray(idx)]
-    d = np.asarray(res)
+    d = np.asarray(res.toarray() if hasattr(res, "toarray") else res)
     if d.ndim != 2 or d.shape[0] != 12:
         return {"status": "crash", "msg": "pitch-class roll has shape %s" % (d.shape,)}
     runs = []
@@ -645,7 +678,7 @@ def full_case_of_pc(case):
 
 def spec_pc(case):
     o = case["opts"]
-    sp = spec_roll(full_case_of_pc(case), strict_idx=False)
+    sp = spec_roll(full_case_of_pc(case))
     if sp["status"] != "ok":
         return sp
     N = sp["shape"][1]
@@ -670,9 +703,13 @@ def judge_pc(case, got=None):
     if got["status"] == "crash":
         return "compute_pitch_class_pianoroll crashed: " + got["msg"]
     if exp["status"] == "err":
-        return None if got["status"] == "err" else "expected a rejection, got a pitch-class roll"
+        if got["status"] == "err":
+            return None
+        if exp["why"] == "empty" and not got["runs"]:
+            return None    # no note to show and nothing shown: the statement fixes no more than that
+        return "expected a refusal (%s), got a pitch-class roll" % exp["why"]
     if got["status"] == "err":
-        return "valid input rejected: " + got["msg"]
+        return "valid input rejected: %s: %s" % (got.get("exc"), got["msg"])
     if got["cols"] != exp["cols"]:
         return "pitch-class roll has %d columns, expected %d" % (got["cols"], exp["cols"])
     gc = {k: fr(v) for k, v in cells_of_runs(got["runs"]).items()}
@@ -684,8 +721,10 @@ def judge_pc(case, got=None):
             s = sum(v for (r, cc), v in gc.items() if cc == c)
             if s not in (0, 1):
                 return "normalised column %d sums to %s" % (c, s)
-    if case["opts"]["return_idxs"] and got["idx"] != exp["idx"]:
-        return "pitch-class index rows %s, expected %s" % (got["idx"][:6], exp["idx"][:6])
+    if case["opts"]["return_idxs"]:
+        gi, ei = got["idx"], exp["idx"]
+        if len(gi) != len(ei) or any(g[:3] != e[:3] or (len(g) > 3 and g[3] != e[3]) for g, e in zip(gi, ei)):
+            return "pitch-class index rows %s, expected %s" % (gi[:6], ei[:6])
     return None
 
 
@@ -745,6 +784,9 @@ def run_pc_stream(ctx, n):
             if len(set(ps)) < len(ps):
                 ctx.count("pc:octave_or_unison_related_notes")
                 ctx.nontrivial(json.dumps(case, sort_keys=True))
+        if got["status"] == "ok" and spec_pc(case)["status"] == "err":
+            ctx.count("pc:outside_statement_shown")
+            continue
         if got["status"] == "ok":
             ob = "(Some (%s, %s, %s))" % (cz(got["cols"]), clist([ctuple([cz(r), cz(a), cz(b), cq(fr(q))]) for r, a, b, q in got["runs"]]), c_idx(got["idx"]))
         else:
@@ -754,6 +796,8 @@ def run_pc_stream(ctx, n):
     if kept:
         ctx.sample({"case": kept[0][0], "implementation": kept[0][1]}, limit=4)
     failing = coq_failing_or_empty(ctx, "pc", terms, "check_pc", 100)
+    if not WITH_COQ:
+        return
     if failing is None:
         ctx.obligation("correspondence: compute_pitch_class_pianoroll: no case left to compare (all failed the direct oracle)", False, "")
         return
@@ -806,16 +850,20 @@ def run_impl_decode(case):
 
     try:
         na = M.pianoroll_to_notearray(build_roll(case), time_div=case["time_div"], time_unit=case["time_unit"])
-    except ValueError as e:
-        return {"status": "err", "msg": str(e)[:200]}
     except Exception as e:
-        return {"status": "crash", "msg": "%s: %s" % (type(e).__name__, str(e)[:200])}
-    names = list(na.dtype.names)
-    want = ["pitch", "onset_" + case["time_unit"], "duration_" + case["time_unit"], "velocity", "id"]
-    if names != want:
-        return {"status": "crash", "msg": "fields %s, expected %s" % (names, want)}
+        return {"status": "err", "exc": type(e).__name__, "msg": str(e)[:200]}
+    return read_notearray(na, case["time_unit"], case["time_div"])
+
+
+def read_notearray(na, unit, td):
+    """(pitch, onset, duration, velocity) of every row of a decoded note array.  Only these four
+    fields are the statement's business (not their position in the dtype, not the ids, not the row
+    order: the rows are compared as a multiset)."""
+    names = list(na.dtype.names or [])
+    want = ["pitch", "onset_" + unit, "duration_" + unit, "velocity"]
+    if any(w not in names for w in want):
+        return {"status": "crash", "msg": "fields %s lack one of %s" % (names, want)}
     out = []
-    td = case["time_div"]
     for row in na:
         on, du = float(row[want[1]]), float(row[want[2]])
         # f4 columns: recover the exact k/time_div within float32 precision (declared tolerance 2^-20 relative)
@@ -823,10 +871,11 @@ def run_impl_decode(case):
         if abs(F(on) - fo) > F(1, 2 ** 20) * max(1, abs(fo)) or abs(F(du) - fd) > F(1, 2 ** 20) * max(1, abs(fd)):
             return {"status": "crash", "msg": "onset/duration %r/%r is not a multiple of 1/time_div" % (on, du)}
         out.append([int(row["pitch"]), frs(fo), frs(fd), int(row["velocity"])])
-    ids = [str(x) for x in na["id"]]
-    if len(set(ids)) != len(ids):
-        return {"status": "crash", "msg": "note ids are not distinct"}
     return {"status": "ok", "notes": out}
+
+
+def note_key(n):
+    return (fr(n[1]), n[0], fr(n[2]), n[3])
 
 
 def spec_decode(case):
@@ -858,9 +907,12 @@ def judge_decode(case, got=None):
     if got["status"] == "crash":
         return "pianoroll_to_notearray: " + got["msg"]
     if got["status"] != exp["status"]:
-        return "pianoroll_to_notearray status %s, expected %s" % (got["status"], exp["status"])
-    if got["status"] == "ok" and got["notes"] != exp["notes"]:
-        return "decoded notes (pitch, onset, duration, velocity) %s, expected the runs of the roll %s" % (got["notes"][:6], exp["notes"][:6])
+        return "pianoroll_to_notearray status %s (%s), expected %s" % (got["status"], got.get("msg", ""), exp["status"])
+    if got["status"] == "ok":
+        g, e = sorted(got["notes"], key=note_key), sorted(exp["notes"], key=note_key)
+        if g != e:
+            k = next((i for i in range(min(len(g), len(e))) if g[i] != e[i]), min(len(g), len(e)))
+            return "decoded notes (pitch, onset, duration, velocity; as a multiset, in onset order) %s, expected the runs of the roll %s" % (g[max(0, k - 1):k + 5], e[max(0, k - 1):k + 5])
     return None
 
 
@@ -874,32 +926,40 @@ def c_decode_case(case, got):
 
 
 def gen_roundtrip_case(rng):
-    """grid-aligned, non-touching notes with velocities: O6."""
+    """grid-aligned, non-touching notes with velocities, rows in random order (the last clause of the
+    statement; hypotheses of theorem roundtrip_recovers_notes).  Weights: half the cases re-strike a
+    pitch already used (the gap between two notes of one pitch is often exactly ONE empty frame, the
+    least that is non-touching); 40 % piano range (notes inside 21..108); 35 % start late or before time 0
+    (with and without remove_silence: onsets come back counted from the roll's time origin)."""
     td = rng.choice([1, 2, 4, 8, 16])
     piano = rng.random() < 0.4
     n = rng.randint(1, 10)
+    shift = rng.choice([0, 0, 0, 0, 3, 16, -1, -8]) if td > 1 else rng.choice([0, 0, 2, -3])
     rows, busy = [], {}
-    for _ in range(n * 3):
+    for _ in range(n * 4):
         if len(rows) >= n:
             break
-        p = rng.randint(21, 108) if piano or rng.random() < 0.7 else rng.randint(0, 127)
+        p = rng.randint(21, 108) if piano or rng.random() < 0.7 else rng.choice([0, 1, 20, 109, 126, 127, rng.randint(0, 127)])
+        a = rng.randint(0, 40)
         if rng.random() < 0.5 and rows:
             p = rng.choice(rows)["pitch"]
-        a = rng.randint(0, 40)
+            if rng.random() < 0.6:          # exactly one empty frame after / before a note of this pitch
+                x, y = rng.choice(busy[p])
+                a = y + 1 if rng.random() < 0.7 else max(0, x - 1 - rng.randint(1, 3))
         b = a + rng.randint(1, 8)
         if any(not (b < x or y < a) for x, y in busy.get(p, [])):   # would overlap or touch a note of this pitch
             continue
         busy.setdefault(p, []).append((a, b))
-        rows.append({"pitch": p, "t": [[frs(F(a, td)), frs(F(b - a, td))]], "vel": rng.randint(1, 127), "chan": 0})
+        rows.append({"pitch": p, "t": [[frs(F(a + shift, td)), frs(F(b - a, td))]], "vel": rng.randint(1, 127), "chan": 0})
     rng.shuffle(rows)
     unit = rng.choice(["sec", "beat", "quarter"])
     return {"kind": "roundtrip", "units": [unit], "has_vel": True, "has_chan": False, "rows": rows,
             "opts": dict(time_unit=rng.choice(["auto", unit]), time_div=td, onset_only=False, note_separation=False, pitch_margin=-1,
-                         time_margin=0, return_idxs=False, piano_range=piano, remove_drums=True, remove_silence=False,
+                         time_margin=0, return_idxs=False, piano_range=piano, remove_drums=True, remove_silence=rng.random() < 0.5,
                          end_time=None, binary=False)}
 
 
-def judge_roundtrip(case):
+def run_impl_roundtrip(case):
     import partitura.utils.music as M
 
     na = build_array(case)
@@ -909,12 +969,21 @@ def judge_roundtrip(case):
             pr = M.compute_pianoroll(na, **roll_kwargs(case))
             back = M.pianoroll_to_notearray(pr, time_div=case["opts"]["time_div"], time_unit=case["units"][0])
     except Exception as e:
-        return "round trip raised %s: %s" % (type(e).__name__, str(e)[:200])
-    u = case["units"][0]
-    got = sorted((int(r["pitch"]), F(float(r["onset_" + u])), F(float(r["duration_" + u])), int(r["velocity"])) for r in back)
-    want = sorted((r["pitch"], fr(r["t"][0][0]), fr(r["t"][0][1]), r["vel"]) for r in case["rows"])
-    if got != want:
-        return "roll -> note array does not recover the notes: got %s, expected %s" % ([tuple(map(str, x)) for x in got[:5]], [tuple(map(str, x)) for x in want[:5]])
+        return {"status": "err", "exc": type(e).__name__, "msg": str(e)[:200]}
+    return read_notearray(back, case["units"][0], case["opts"]["time_div"])
+
+
+def judge_roundtrip(case, got=None):
+    got = got or run_impl_roundtrip(case)
+    if got["status"] != "ok":
+        return "round trip of grid-aligned non-touching notes failed: %s %s" % (got.get("exc", ""), got["msg"])
+    ons = [fr(r["t"][0][0]) for r in case["rows"]]
+    origin = min(ons) if case["opts"]["remove_silence"] else min(F(0), min(ons))
+    g = sorted(got["notes"], key=note_key)
+    want = sorted(([r["pitch"], frs(fr(r["t"][0][0]) - origin), frs(fr(r["t"][0][1])), r["vel"]] for r in case["rows"]), key=note_key)
+    if g != want:
+        return ("roll -> note array does not recover the notes (pitch, onset counted from the roll's time origin %s, duration, "
+                "velocity): got %s, expected %s" % (origin, g[:5], want[:5]))
     return None
 
 
@@ -942,26 +1011,49 @@ def run_decode_stream(ctx, n_random, n_round):
     if kept:
         ctx.sample({"case": kept[0][0], "implementation": kept[0][1]}, limit=5)
     failing = coq_failing_or_empty(ctx, "decode", terms, "check_decode", 250)
-    if failing is None:
-        ctx.obligation("correspondence: pianoroll_to_notearray: no case left to compare (all failed the direct oracle)", False, "")
-        failing = []
-    ctx.obligation("correspondence: Model.C13.pianoroll_to_notearray = implementation on %d random integer rolls (128 x n and 88 x n; dense, csc, csr)"
-                   % len(terms), not failing, failing[:5])
-    for i in failing[:5]:
-        ctx.violation("model and implementation disagree on pianoroll_to_notearray", {"case": kept[i][0], "got": kept[i][1]})
+    if WITH_COQ:
+        if failing is None:
+            ctx.obligation("correspondence: pianoroll_to_notearray: no case left to compare (all failed the direct oracle)", False, "")
+            failing = []
+        ctx.obligation("correspondence: Model.C13.pianoroll_to_notearray = implementation (multiset of decoded notes) on %d random integer rolls "
+                       "(128 x n and 88 x n; dense, csc, csr)" % len(terms), not failing, failing[:5])
+        for i in failing[:5]:
+            ctx.violation("model and implementation disagree on pianoroll_to_notearray", {"case": kept[i][0], "got": kept[i][1]})
     nviol = 0
+    terms, kept = [], []
     for _ in range(n_round):
         case = gen_roundtrip_case(ctx.rng)
+        if not case["rows"]:
+            continue
         ctx.evaluations += 1
         ctx.count("roundtrip:%s" % ("piano_range" if case["opts"]["piano_range"] else "full"))
-        why = judge_roundtrip(case)
+        if case["opts"]["remove_silence"]:
+            ctx.count("roundtrip:remove_silence")
+        ps = [r["pitch"] for r in case["rows"]]
+        if len(set(ps)) < len(ps):
+            ctx.count("roundtrip:pitch_struck_more_than_once")
+        got = run_impl_roundtrip(case)
+        why = judge_roundtrip(case, got)
         if why:
             nviol += 1
             if nviol <= 3:
-                small = shrink_roll(case, judge_roundtrip)
-                ctx.violation(judge_roundtrip(small) or why, {"case": small})
-        elif len(case["rows"]) > 1:
+                small = shrink_roll(case, lambda c: bool(c["rows"]) and judge_roundtrip(c))
+                ctx.violation(judge_roundtrip(small) or why, {"case": small, "got": run_impl_roundtrip(small)})
+            continue
+        if len(case["rows"]) > 1:
             ctx.nontrivial(json.dumps(case, sort_keys=True))
+        ob = "(Some %s)" % clist([ctuple([cz(p), cq(fr(a)), cq(fr(d)), cz(v)]) for p, a, d, v in got["notes"]])
+        terms.append("((%s, %s, %s, %s) : copts * narr * Z * option (list (Z * Q * Q * Z)))" % (c_copts(case), c_narr(case), cz(case["opts"]["time_div"]), ob))
+        kept.append((case, got))
+    if kept:
+        ctx.sample({"case": kept[0][0], "implementation": kept[0][1]}, limit=6)
+    failing = coq_failing_or_empty(ctx, "roundtrip", terms, "check_roundtrip", 150) or []
+    if not WITH_COQ:
+        return
+    ctx.obligation("correspondence: Model.C13 decoder applied to Model.C13 roll = pianoroll_to_notearray(compute_pianoroll(.)) up to order "
+                   "on %d grid-aligned non-touching arrays (hypotheses of roundtrip_recovers_notes)" % len(terms), not failing, failing[:5])
+    for i in failing[:5]:
+        ctx.violation("model and implementation disagree on the round trip roll -> note array", {"case": kept[i][0], "got": kept[i][1]})
 
 
 # ----------------------------------------------------------------------------
@@ -984,9 +1076,9 @@ def run(ctx):
                        "pitch-class values are float64; each is mapped to the unique fraction with denominator <= 10^6 within 1e-12",
                        "note-array f4 onsets/durations returned by pianoroll_to_notearray are read as k/time_div within 2^-20 relative",
                        "pitches and velocities are Python/numpy integers (i4 overflow out of scope)"]
-    ctx.matchers[K1] = lambda ro: (ro.get("finding") == "onset_only_idx_offset" and ro["case"]["opts"]["onset_only"]
-                                   and ro["case"]["opts"]["return_idxs"] and (judge_roll(ro["case"]) or "").startswith("K1:"))
-    ok, why = ctx.coq_props(expect_min=24)
+    global WITH_COQ
+    ok, why = ctx.coq_props(expect_min=33)
+    WITH_COQ = bool(ok)
     quick = ctx.tier == "quick"
     rng = ctx.rng
     # corpus / fixed arrays first: the full option grid
@@ -995,12 +1087,11 @@ def run(ctx):
         grid_cases += exhaustive_option_cases(rc, [8, 1, 4][i])
     ctx.count("roll:option_grid_cases", len(grid_cases))
     run_roll_stream(ctx, grid_cases, "grid", with_coq=ok)
-    n = 700 if quick else 20000
+    n = 1200 if quick else 20000
     cases = [gen_roll_case(rng) for _ in range(n)]
     run_roll_stream(ctx, cases, "roll", with_coq=ok)
-    if ok:
-        run_pc_stream(ctx, 150 if quick else 3000)
-        run_decode_stream(ctx, 300 if quick else 6000, 150 if quick else 3000)
+    run_pc_stream(ctx, 250 if quick else 3000)
+    run_decode_stream(ctx, 400 if quick else 6000, 250 if quick else 3000)
     if not ok and not ctx.violations:
         ctx.violation("proof obligations of Props/C13.v no longer check: " + why, {"theorem_or_build": why}, no_input=True)
     ctx.extra["exhaustive"] = False
@@ -1033,5 +1124,7 @@ def replay(obj):
         print("expected      :", json.dumps(spec_decode(case))[:3000])
         print("verdict       :", judge_decode(case, got) or "agrees with the property")
     elif kind == "roundtrip":
-        print("verdict       :", judge_roundtrip(case) or "agrees with the property")
+        got = run_impl_roundtrip(case)
+        print("implementation:", json.dumps(got)[:3000])
+        print("verdict       :", judge_roundtrip(case, got) or "agrees with the property")
     return 0
